@@ -102,7 +102,7 @@ func crossBodies(n int) []*peg.Expr {
 	}
 	for _, b := range sub(n) {
 		c := b.Clone()
-		names := []string{"x", "y", "z", "w"}
+		names := []string{"é", "y", "zπ", "w"} // (identifiers may be any letters: a label that starts / ends with a non-ASCII letter)
 		i := 0
 		c.Walk(func(e *peg.Expr) {
 			if e.K == peg.KLabel {
